@@ -4,7 +4,7 @@
    defs/params.go; peer task).  The clock is discrete; scheduler latency, CPU work, kernel socket behaviour and
    disk stalls are outside the model.  Hypotheses built into the graph: callbacks and file operations return; a
    connection operation returns by its deadline or when the connection is closed. *)
-From SV Require Import Model.Common Model.Shutdown Proofs.ShutdownProofs Model.Metrics Proofs.MetricsProofs.
+From SV Require Import Model.Common Model.Metrics Model.Shutdown Proofs.ShutdownProofs Proofs.MetricsProofs Proofs.ShutdownClientProofs.
 Local Open Scope Z_scope.
 
 (* the completion bound computed from the wake-up sets is sound for EVERY wait graph: every run completes, no
@@ -52,6 +52,24 @@ Theorem C18_feeder_bounded_by_client :
   runs (feeder p sh ph) s t -> exists z, t = Some z /\ s <= z <= s + c.
 Proof. exact feeder_in_time_lemma. Qed.
 Print Assumptions C18_feeder_bounded_by_client.
+
+(* the same on the client MACHINE (Model/Metrics.v section E, the one replayed against the real client's traces for
+   C19), with a variant measure: from every reachable state, a run after the stop signal - whatever the connection,
+   the acknowledger and Go's select do - has at most [variant s w] steps (explicit in the chunks held and the w
+   chunks left in the closed output channel), and it cannot stop before CStopped: some step woken by the stop
+   signal, a closed channel or a returning connection operation is always enabled *)
+Theorem C18_client_steps_after_stop_bounded :
+  forall cfg evs0 s, c_run cfg c_init evs0 = Some s ->
+  forall w evs s' w', 0 <= w -> c_run_stop cfg s w evs = Some (s', w') ->
+  Z.of_nat (length evs) <= variant s w.
+Proof. exact client_stop_steps_bounded_reachable_lemma. Qed.
+Print Assumptions C18_client_steps_after_stop_bounded.
+
+Theorem C18_client_never_stuck_after_stop :
+  forall cfg s w, c_stop s = true -> c_phase s <> CStopped ->
+  exists e s', post_stop_ok w e = true /\ c_step cfg s e = Some s'.
+Proof. exact client_stop_progress_lemma. Qed.
+Print Assumptions C18_client_never_stuck_after_stop.
 
 (* a session opened after the abort-on-stop callback has run is not aborted by the stop: its sends are bounded by
    their deadline only *)
